@@ -77,6 +77,13 @@ m("C15","revert-guard-fix","xyz/xyz.go","	if Equals(line2Start, line2End) {","	i
 m("C15","xy-guard-returns-wrong-segment","xy/cga.go","	if line2Start.Equal(geom.XY, line2End) {\n		return DistanceFromPointToLine(line2End, line1Start, line1End)","	if line2Start.Equal(geom.XY, line2End) {\n		return DistanceFromPointToLine(line2End, line2Start, line1End)","zero-length-guards/xy.DistanceFromLineToLine")
 m("C15","revert-endpoint-case-fix","xyz/xyz.go",'\tif s < 0 || s > 1 || t < 0 || t > 1 {\n\t\t/**\n\t\t * The closest approach of the infinite lines lies outside one of the\n\t\t * segments, so the minimum is attained at an end point of one of them.\n\t\t * Which end point is not determined by a single parameter (both may be\n\t\t * out of range), so all four are measured.\n\t\t */\n\t\treturn math.Min(\n\t\t\tmath.Min(\n\t\t\t\tDistancePointToLine(line1Start, line2Start, line2End),\n\t\t\t\tDistancePointToLine(line1End, line2Start, line2End),\n\t\t\t),\n\t\t\tmath.Min(\n\t\t\t\tDistancePointToLine(line2Start, line1Start, line1End),\n\t\t\t\tDistancePointToLine(line2End, line1Start, line1End),\n\t\t\t),\n\t\t)\n\t}\n','\tswitch {\n\tcase s < 0:\n\t\treturn DistancePointToLine(line1Start, line2Start, line2End)\n\tcase s > 1:\n\t\treturn DistancePointToLine(line1End, line2Start, line2End)\n\tcase t < 0:\n\t\treturn DistancePointToLine(line2Start, line1Start, line1End)\n\tcase t > 1:\n\t\treturn DistancePointToLine(line2End, line1Start, line1End)\n\t}\n',"endpoint-case-decides-both-parameters/xyz.DistanceLineToLine/single(line1Start)")
 m("C15","xyz-min-over-two-endpoints","xyz/xyz.go",'\tif s < 0 || s > 1 || t < 0 || t > 1 {\n\t\t/**\n\t\t * The closest approach of the infinite lines lies outside one of the\n\t\t * segments, so the minimum is attained at an end point of one of them.\n\t\t * Which end point is not determined by a single parameter (both may be\n\t\t * out of range), so all four are measured.\n\t\t */\n\t\treturn math.Min(\n\t\t\tmath.Min(\n\t\t\t\tDistancePointToLine(line1Start, line2Start, line2End),\n\t\t\t\tDistancePointToLine(line1End, line2Start, line2End),\n\t\t\t),\n\t\t\tmath.Min(\n\t\t\t\tDistancePointToLine(line2Start, line1Start, line1End),\n\t\t\t\tDistancePointToLine(line2End, line1Start, line1End),\n\t\t\t),\n\t\t)\n\t}\n','\tif s < 0 || s > 1 || t < 0 || t > 1 {\n\t\t// only the end points of the first segment are measured\n\t\treturn math.Min(\n\t\t\tDistancePointToLine(line1Start, line2Start, line2End),\n\t\t\tDistancePointToLine(line1End, line2Start, line2End),\n\t\t)\n\t}\n',"four-endpoint-distances/xyz.DistanceLineToLine")
+m("C15","xy-cross-product-wrong-factor","xy/cga.go","	s := ((lineStart[1]-p[1])*(lineEnd[0]-lineStart[0]) - (lineStart[0]-p[0])*(lineEnd[1]-lineStart[1])) / len2\n	return math.Abs(s) * math.Sqrt(len2)","	s := ((lineStart[1]-p[1])*(lineEnd[0]-lineStart[0]) - (lineStart[0]-p[0])*(lineEnd[0]-lineStart[0])) / len2\n	return math.Abs(s) * math.Sqrt(len2)","point-segment-formula/xy.DistanceFromPointToLine")
+m("C15","xyz-foot-point-from-end","xyz/xyz.go","	qz := lineStart[2] + r*(lineEnd[2]-lineStart[2])","	qz := lineEnd[2] + r*(lineEnd[2]-lineStart[2])","point-segment-formula/xyz.DistancePointToLine")
+m("C15","xyz-parallel-t-wrong-dot","xyz/xyz.go","			t = e / c","			t = d / c","closest-points-orthogonal/xyz.DistanceLineToLine")
+m("C15","xyz-general-s-sign","xyz/xyz.go","		s = (b*e - c*d) / denom","		s = (c*d - b*e) / denom","closest-points-orthogonal/xyz.DistanceLineToLine")
+m("C12","hcoords-w-sign","xy/internal/hcoords/hcoords.go","	w := line1Xdiff*line2Y - line2X*line1Ydiff","	w := line1Xdiff*line2Y + line2X*line1Ydiff","intersection-on-both-lines/")
+m("C20","rdp-projection-denominator","xy/rdp_simplify.go","		t := ((point[0]-x)*dx + (point[1]-y)*dy) / (dx*dx + dy*dy)","		t := ((point[0]-x)*dx + (point[1]-y)*dy) / (dx*dx + dy)","point-segment-formula/xy.distanceFromSegmentSquared")
+m("C14","centroid-area-branch-untranslated","xy/area_centroid.go","func centroid3(p1, p2, p3, c geom.Coord) {\n	c[0] = p1[0] + p2[0] + p3[0]\n	c[1] = p1[1] + p2[1] + p3[1]","func centroid3(p1, p2, p3, c geom.Coord) {\n	c[0] = (p2[0] - p1[0]) + (p3[0] - p1[0])\n	c[1] = (p2[1] - p1[1]) + (p3[1] - p1[1])","centroid-frame-consistent/(*xy.AreaCentroidCalculator).GetCentroid")
 m("C15","xyz-no-upper-clamp","xyz/xyz.go","	if r >= 1.0 {\n		return Distance(point, lineEnd)\n	}\n\n	// compute closest point q","	// compute closest point q","segment-distance-clamped/xyz.DistancePointToLine")
 # ---- C16
 m("C16","shallow-endss","derived.gen.go","		deriveDeepCopy_12(dst.endss, src.endss)","		copy(dst.endss, src.endss)","clone-fresh/(*geom.MultiPolygon).Clone")
